@@ -59,7 +59,7 @@ def programs(tier):
         out.append((f"{direction.lower()}-{icls}", prog(3, resw + [new(icls, "i", **args), new(f"Objective{direction}imizeIndicator", "o", target=R("i"), **kw)])))
     out.append(("max-IndicatorMinBufferLevel", prog(3, buf + [new("IndicatorMinBufferLevel", "i", buffer=R("bf")), new("ObjectiveMaximizeIndicator", "o", target=R("i"))])))
     # same-direction pairs
-    for w1, w2 in ((1, 1), (1, 2), (3, 1), (1, 0), (0, 2)) if tier == "thorough" else ((1, 2), (1, 0)):
+    for w1, w2 in ((1, 1), (1, 2), (3, 1), (1, 0), (0, 2)) if tier == "thorough" else ((1, 2), (1, 0), (2, 3)):
         out.append((f"pair-min/{w1}:{w2}", prog(4, W2 + [new("IndicatorFromMathExpression", "i1", name="i1", expression=E(["end", "a"])),
                                                         new("IndicatorFromMathExpression", "i2", name="i2", expression=E(["-", 6, ["start", "b"]])),
                                                         new("ObjectiveMinimizeIndicator", "o1", target=R("i1"), weight=w1),
@@ -69,6 +69,14 @@ def programs(tier):
                                                     new("IndicatorFromMathExpression", "i2", name="i2", expression=E(["-", 4, ["end", "b"]])),
                                                     new("ObjectiveMaximizeIndicator", "o1", target=R("i1"), weight=w1),
                                                     new("ObjectiveMaximizeIndicator", "o2", target=R("i2"), weight=w2)])))
+    # weights that are not multiples of each other, on indicators whose two best weighted sums differ by exactly 1
+    for direction in ("Min", "Max"):
+        for w1, w2 in ((2, 3), (3, 5)):
+            out.append((f"pair-{direction.lower()}-coupled/{w1}:{w2}", prog(4, W2 + [
+                new("IndicatorFromMathExpression", "i1", name="i1", expression=E(["end", "a"])),
+                new("IndicatorFromMathExpression", "i2", name="i2", expression=E(["start", "b"])),
+                new(f"Objective{direction}imizeIndicator", "o1", target=R("i1"), weight=w1),
+                new(f"Objective{direction}imizeIndicator", "o2", target=R("i2"), weight=w2)])))
     out.append(("pair-makespan+flowtime", prog(4, W2 + [new("ObjectiveMinimizeMakespan", "o1"), new("ObjectiveMinimizeFlowtime", "o2")])))
     if tier == "thorough":
         out.append(("makespan3", prog(4, [fixed("a", 1), fixed("b", 1), fixed("c", 2), worker("w"), req("a", "w"), req("b", "w"), req("c", "w"), new("ObjectiveMinimizeMakespan", "o")])))
